@@ -3,7 +3,7 @@
    peekRead / peekDrain / Read), transport.go (autoDecodeResponseBody).  No proofs here.
 
    What is modelled exactly: the decision of Transport.autoDecodeResponseBody (disable flag, the
-   Accept-Encoding RESPONSE header quirk, content-type selector, Content-Type charset -> leave /
+   still-content-encoded guard, content-type selector, Content-Type charset -> leave /
    whole-body streaming decoder / leave) and the state machine of autoDecodeReadCloser
    (detected, decodeReader, peek) driven by a list of network read chunks and a list of caller
    buffer sizes, AFTER the repair of peekRead (fix: commit, see design.d/C15.md); the pinned
@@ -41,51 +41,65 @@ Definition selected (sel : selector) (ct : bytes) : bool :=
   | SelFn a => a
   end.
 
-(* transport.go autoDecodeResponseBody, first two tests.  [resp_ae] is the value of the RESPONSE
-   header Accept-Encoding (sic): a non-empty value switches auto-decoding off for that response. *)
-Definition should_decode (disable : bool) (sel : selector) (resp_ae ct : bytes) : bool :=
+(* transport.go autoDecodeResponseBody, first two tests (after fix: the guard looks at the RESPONSE
+   header Content-Encoding).  [resp_ce] = res.Header.Get("Content-Encoding") when the response reaches
+   the charset stage: the decompression branches delete the header when they decode, so a non-empty
+   value means the body is still content-encoded (unsupported coding, decompression off) - not text in
+   any charset yet, left alone. *)
+Definition should_decode (disable : bool) (sel : selector) (resp_ce ct : bytes) : bool :=
+  negb disable && is_empty resp_ce && selected sel ct.
+
+(* the PINNED guard tested the RESPONSE header Accept-Encoding (sic) instead: a response may carry one
+   (RFC 9110 12.5.3, e.g. a 415) and then a declared charset was not applied, while a still-encoded
+   body was transcoded *)
+Definition should_decode_pinned (disable : bool) (sel : selector) (resp_ae ct : bytes) : bool :=
   negb disable && is_empty resp_ae && selected sel ct.
 
 Inductive ct_parse := PErr | PNoCharset | PCharset (v : bytes).
 
-Inductive rerr := ENone | EEOF.
+(* result of one Read: nil, io.EOF, or any other error (a network failure in mid-body) *)
+Inductive rerr := ENone | EEOF | EFail.
 Definition rerr_eqb (a b : rerr) : bool :=
-  match a, b with ENone, ENone | EEOF, EEOF => true | _, _ => false end.
+  match a, b with ENone, ENone | EEOF, EEOF | EFail, EFail => true | _, _ => false end.
 
 (* ---------- the response body as the transport hands it over: scripted network reads ---------- *)
 
 (* One element of [n_chunks] = what one Read of the underlying body returns when the buffer is large
    enough (a shorter buffer takes a prefix and leaves the rest); [n_eof_last]: the last chunk comes
    together with io.EOF (as net/http's length-delimited body does) instead of a separate (0, EOF). *)
-Record net := { n_chunks : list bytes; n_eof_last : bool }.
+Record net := { n_chunks : list bytes; n_eof_last : bool; n_fail : bool }.
+
+(* how the body ends: io.EOF, or - [n_fail] - a read error after the listed chunks (connection reset in
+   mid-body; the chunks are then what arrived before it) *)
+Definition net_end (s : net) : rerr := if n_fail s then EFail else EEOF.
 
 Definition net_read (k : nat) (s : net) : bytes * rerr * net :=
   match n_chunks s with
-  | [] => ([], EEOF, s)
+  | [] => ([], net_end s, s)
   | c :: r =>
       if length c <=? k then
-        (c, match r with [] => if n_eof_last s then EEOF else ENone | _ => ENone end,
-         {| n_chunks := r; n_eof_last := n_eof_last s |})
-      else (firstn k c, ENone, {| n_chunks := skipn k c :: r; n_eof_last := n_eof_last s |})
+        (c, match r with [] => if n_eof_last s && negb (n_fail s) then EEOF else ENone | _ => ENone end,
+         {| n_chunks := r; n_eof_last := n_eof_last s; n_fail := n_fail s |})
+      else (firstn k c, ENone, {| n_chunks := skipn k c :: r; n_eof_last := n_eof_last s; n_fail := n_fail s |})
   end.
 
 (* ---------- x/text transform.Reader: decoded bytes still to be delivered + its hand-out schedule ---------- *)
 
-Record sreader := { sr_pending : bytes; sr_takes : list (nat * bool) }.
+Record sreader := { sr_pending : bytes; sr_takes : list (nat * bool); sr_end : rerr }.
 
-(* hands out at least one and at most k bytes; a schedule entry (t, fl): at most t bytes, io.EOF
-   together with the last bytes iff fl *)
+(* hands out at least one and at most k bytes; a schedule entry (t, fl): at most t bytes, the terminal
+   error (io.EOF, or the network's) together with the last bytes iff fl *)
 Definition take_n (k len t : nat) : nat := Nat.min k (Nat.min len (Nat.max 1 t)).
 
 Definition sr_read (k : nat) (s : sreader) : bytes * rerr * sreader :=
   match sr_pending s with
-  | [] => ([], EEOF, s)
+  | [] => ([], sr_end s, s)
   | _ :: _ =>
       let '(t, fl) := match sr_takes s with [] => (k, false) | x :: _ => x end in
       let n := take_n k (length (sr_pending s)) t in
       let rest := skipn n (sr_pending s) in
-      (firstn n (sr_pending s), if fl && is_empty rest then EEOF else ENone,
-       {| sr_pending := rest; sr_takes := tl (sr_takes s) |})
+      (firstn n (sr_pending s), if fl && is_empty rest then sr_end s else ENone,
+       {| sr_pending := rest; sr_takes := tl (sr_takes s); sr_end := sr_end s |})
   end.
 
 (* ---------- decode.go autoDecodeReadCloser: state ---------- *)
@@ -98,23 +112,25 @@ Record adrc := {
   a_takes : list (nat * bool)        (* not Go state: schedule given to the transform.Reader once created *)
 }.
 
-Definition drained (n : net) : net := {| n_chunks := []; n_eof_last := n_eof_last n |}.
+Definition drained (n : net) : net := {| n_chunks := []; n_eof_last := n_eof_last n; n_fail := n_fail n |}.
 
 
 Inductive breader := BRaw (n : net) | BHeader (s : sreader) | BSniff (a : adrc).
 
 
-Definition fresh_net (chunks : list bytes) (eof_last : bool) : net :=
-  {| n_chunks := chunks; n_eof_last := eof_last |}.
+Definition fresh_net (chunks : list bytes) (eof_last fail : bool) : net :=
+  {| n_chunks := chunks; n_eof_last := eof_last; n_fail := fail |}.
 
-Definition fresh_adrc (chunks : list bytes) (eof_last : bool) (takes : list (nat * bool)) : adrc :=
-  {| a_net := fresh_net chunks eof_last; a_detected := false; a_dec := None; a_peek := None;
+Definition fresh_adrc (chunks : list bytes) (eof_last fail : bool) (takes : list (nat * bool)) : adrc :=
+  {| a_net := fresh_net chunks eof_last fail; a_detected := false; a_dec := None; a_peek := None;
      a_takes := takes |}.
 
 Section Machine.
   Variable enc : Type.
   Variable dec_all : enc -> bytes -> bytes.             (* Decoder.Bytes on a complete input *)
   Variable dec_stream : enc -> list bytes -> bytes.     (* transform.Reader over these read chunks, drained *)
+  Variable dec_partial : enc -> list bytes -> bytes.    (* ... when the source fails after these chunks: what it
+                                                           delivers before surfacing the error (no at-EOF flush) *)
   Variable find_encoding : bytes -> option enc.         (* charsets.FindEncoding (nil for utf-8 / nothing found) *)
   Variable parse_ct : bytes -> ct_parse.                (* mime.ParseMediaType(ct) -> params["charset"] *)
   Variable lookup_charset : bytes -> option enc.        (* htmlcharset.Lookup, then ianaindex.MIME.Encoding *)
@@ -138,13 +154,21 @@ Section Machine.
     | PErr | PNoCharset => ISniff                           (* newAutoDecodeReadCloser *)
     end.
 
-  Definition decide (disable : bool) (sel : selector) (resp_ae ct : bytes) : install :=
-    if should_decode disable sel resp_ae ct then charset_from_content_type ct else IRaw.
+  Definition decide (disable : bool) (sel : selector) (resp_ce ct : bytes) : install :=
+    if should_decode disable sel resp_ce ct then charset_from_content_type ct else IRaw.
+
+  Definition decide_pinned (disable : bool) (sel : selector) (resp_ae ct : bytes) : install :=
+    if should_decode_pinned disable sel resp_ae ct then charset_from_content_type ct else IRaw.
 
   (* ---------- decode.go autoDecodeReadCloser ---------- *)
 
   (* peekRead after the repair: detection on p[:n]; the first chunk and the rest of the body go
      through ONE streaming decoder; what is returned is what that decoder delivers *)
+  (* the transform.Reader created over chunks [cs] of a network ending like [n] *)
+  Definition mk_sreader (en : enc) (cs : list bytes) (n : net) (takes : list (nat * bool)) : sreader :=
+    {| sr_pending := if n_fail n then dec_partial en cs else dec_stream en cs;
+       sr_takes := takes; sr_end := net_end n |}.
+
   Definition peek_read (k : nat) (a : adrc) : bytes * rerr * adrc :=
     let '(b, e, net') := net_read k (a_net a) in
     if is_empty b then
@@ -154,7 +178,7 @@ Section Machine.
       | None =>
           (b, e, {| a_net := net'; a_detected := true; a_dec := a_dec a; a_peek := a_peek a; a_takes := a_takes a |})
       | Some en =>
-          let sr := {| sr_pending := dec_stream en (b :: n_chunks net'); sr_takes := a_takes a |} in
+          let sr := mk_sreader en (b :: n_chunks net') net' (a_takes a) in
           let '(o, e2, sr') := sr_read k sr in
           (o, e2, {| a_net := drained net'; a_detected := true; a_dec := Some sr'; a_peek := a_peek a;
                      a_takes := a_takes a |})
@@ -200,12 +224,12 @@ Section Machine.
 
   (* ---------- the body reader installed by autoDecodeResponseBody ---------- *)
 
-  Definition open_body (i : install) (chunks : list bytes) (eof_last : bool)
+  Definition open_body (i : install) (chunks : list bytes) (eof_last fail : bool)
              (takes : list (nat * bool)) : breader :=
     match i with
-    | IRaw => BRaw (fresh_net chunks eof_last)
-    | IHeader e => BHeader {| sr_pending := dec_stream e chunks; sr_takes := takes |}
-    | ISniff => BSniff (fresh_adrc chunks eof_last takes)
+    | IRaw => BRaw (fresh_net chunks eof_last fail)
+    | IHeader e => BHeader (mk_sreader e chunks (fresh_net chunks eof_last fail) takes)
+    | ISniff => BSniff (fresh_adrc chunks eof_last fail takes)
     end.
 
   Definition b_read (k : nat) (b : breader) : bytes * rerr * breader :=
@@ -221,26 +245,27 @@ Section Machine.
     | [] => []
     | k :: r =>
         let '(o, e, b') := b_read k b in
-        (o, e, b') :: match e with EEOF => [] | ENone => run r b' end
+        (o, e, b') :: match e with ENone => run r b' | _ => [] end
     end.
 
-  (* ... and the delivered body (true = io.EOF was reached within the given calls) *)
-  Fixpoint read_all (sizes : list nat) (b : breader) : bytes * bool :=
+  (* ... and the delivered body with the error that ended the reading (io.EOF, a network error; ENone = the
+     given calls were used up before either) *)
+  Fixpoint read_all (sizes : list nat) (b : breader) : bytes * rerr :=
     match sizes with
-    | [] => ([], false)
+    | [] => ([], ENone)
     | k :: r =>
         let '(o, e, b') := b_read k b in
         match e with
-        | EEOF => (o, true)
         | ENone => let '(o', f) := read_all r b' in (o ++ o', f)
+        | _ => (o, e)
         end
     end.
 
   (* whole pipeline: configuration + response headers + body split + caller sizes -> delivered body *)
-  Definition respond (disable : bool) (sel : selector) (resp_ae ct : bytes)
-             (chunks : list bytes) (eof_last : bool) (takes : list (nat * bool))
-             (sizes : list nat) : bytes * bool :=
-    read_all sizes (open_body (decide disable sel resp_ae ct) chunks eof_last takes).
+  Definition respond (disable : bool) (sel : selector) (resp_ce ct : bytes)
+             (chunks : list bytes) (eof_last fail : bool) (takes : list (nat * bool))
+             (sizes : list nat) : bytes * rerr :=
+    read_all sizes (open_body (decide disable sel resp_ce ct) chunks eof_last fail takes).
 
   (* the first non-empty read of the sniffing reader (the only bytes detection ever looks at) *)
   Fixpoint first_read (sizes : list nat) (n : net) : option bytes :=
@@ -248,7 +273,7 @@ Section Machine.
     | [] => None
     | k :: r =>
         let '(b, e, n') := net_read k n in
-        if is_empty b then match e with EEOF => None | ENone => first_read r n' end
+        if is_empty b then match e with ENone => first_read r n' | _ => None end
         else Some b
     end.
 
@@ -274,7 +299,7 @@ Section Machine.
       | None =>
           (b, e, {| a_net := net'; a_detected := true; a_dec := a_dec a; a_peek := a_peek a; a_takes := a_takes a |})
       | Some en =>
-          let sr := {| sr_pending := dec_stream en (n_chunks net'); sr_takes := a_takes a |} in
+          let sr := mk_sreader en (n_chunks net') net' (a_takes a) in
           let pp := dec_all en b in                        (* dc.Bytes(p[:n]): one-shot, at-EOF semantics *)
           if k <? length pp then
             (firstn k pp, ENone,
@@ -289,14 +314,14 @@ Section Machine.
   Definition a_read_pinned (p : bytes) (a : adrc) : bytes * rerr * adrc :=
     if a_detected a then a_read_detected (length p) a else peek_read_pinned p a.
 
-  Fixpoint read_all_pinned (bufs : list bytes) (a : adrc) : bytes * bool :=
+  Fixpoint read_all_pinned (bufs : list bytes) (a : adrc) : bytes * rerr :=
     match bufs with
-    | [] => ([], false)
+    | [] => ([], ENone)
     | p :: r =>
         let '(o, e, a') := a_read_pinned p a in
         match e with
-        | EEOF => (o, true)
         | ENone => let '(o', f) := read_all_pinned r a' in (o ++ o', f)
+        | _ => (o, e)
         end
     end.
 
@@ -307,9 +332,11 @@ Arguments IHeader {enc} e.
 Arguments ISniff {enc}.
 Arguments charset_from_content_type {enc}.
 Arguments decide {enc}.
+Arguments decide_pinned {enc}.
 Arguments peek_read {enc}.
 Arguments a_read {enc}.
 Arguments open_body {enc}.
+Arguments mk_sreader {enc}.
 Arguments b_read {enc}.
 Arguments run {enc}.
 Arguments read_all {enc}.
